@@ -181,7 +181,7 @@ theorem C06_closure_decode (o : Options) (ext : Ext) (h0 : o.overwrites = []) (x
   obtain ⟨t, n, children, md, ht, hs, _, _⟩ := fromSamples_root h
   have hside := to_schema_side_of_WF o h0 t (fromSamples_inv ht).wf fields hs
   exact Props.C01.C01_build_decode ext fields xs arrs hside.1 hside.2 hsafe
-    (fun x hx => sampleOK_noRaw _ x (hok x hx)) hm
+    (fun x hx => Build.noRaw_ssa x (sampleOK_noRaw _ x (hok x hx))) (Or.inl fun x hx => sampleOK_noRaw _ x (hok x hx)) hm
 
 /-- the traced schema is one the reader supports (`Lemmas/C06Readable.lean`) -/
 theorem fromSamples_readable (o : Options) (h0 : o.overwrites = []) {xs : List SVal} {fields : List Field}
